@@ -35,6 +35,8 @@ def random_cases(seed, count, maxn):
             while x != 0:
                 chain.append(x)
                 x = par[x - 1]
+            # (the realisation of a case as blocks allows at most 9 links per block)
+            chain = [x for x in chain if sum(1 for q in par if q == x) < 9] or chain[:1]
             par.append(rng.choice(chain))
         dep = [0]
         for i in range(2, n + 1):
@@ -111,6 +113,11 @@ def run_budget(pid, tier, seed):
         rng = random.Random(seed)
         extra = []
         for c in random_cases(seed + 99, 200 if tier == "quick" else 3000, 10):
+            # requestor empty or full, responder full or full minus one: other splits bring
+            # in C02's recorded skip-count finding, which is not a budget matter
+            labels = sorted(set(c["cid"]))
+            c["sl"] = rng.choice([[], [], labels])     # (a requestor holding part of the DAG counts blocks the responder may not visit)
+            c["sr"] = rng.choice([labels, [l for l in labels if l != rng.choice(labels)]])
             c.update({"userSkip": 0, "ignore": [], "keyed": False, "budget": rng.randint(1, c["n"] + 2),
                       "where": rng.choice(["reqG", "reqH", "reqGH", "reqHG", "respG", "respH", "respGH", "respHG"])})
             extra.append(c)
@@ -144,6 +151,7 @@ def run_budget(pid, tier, seed):
         cov = {"states": res.distinct + ores.distinct, "transitions": res.distinct + ores.distinct, "traces_validated_against_impl": len(cases),
                "samples": [json.loads(lines[len(lines) // 2])], "exhaustive": True,
                "cases_enumerated_by_tlc": len(cases) - len(extra) - len(paused), "cases_random": len(extra), "cases_with_pause_and_resume": len(paused),
+               "cases_not_judged_skip_count_mismatch": sum(1 for x in verdicts if x.get("na07")),
                "rule": "every link tree with <= %d visits (plain depths) x requestor store {empty, full, full minus one} x responder store {full, full minus one} x budget 1..N+2 "
                        "x 8 placements (requestor/responder, global option / per-request hook / both with either smaller); judged by ExchangeOracle.tla C07OK" % (4 if tier == "quick" else 5)}
         return v.finish(cov, ["TLC", "a missing block still uses up one unit of go-ipld-prime's link budget: runs are accepted under either reading of 'blocks needed' (link visits / blocks loaded)"])
